@@ -106,7 +106,7 @@ def _limits():
         pass
 
 
-def run_probe(pid, tier, seed, shard, nshards, rundir, extra_opts, timeout, journal=False):
+def run_probe(pid, tier, seed, shard, nshards, rundir, extra_opts, timeout, journal=False, binary=None):
     """Run one shard. With journal=True the probe records every case before executing it; if the
     process dies (stack overflow, abort, escaped panic) the death is recorded together with the last
     journalled case and the shard is restarted behind it."""
@@ -114,7 +114,7 @@ def run_probe(pid, tier, seed, shard, nshards, rundir, extra_opts, timeout, jour
     err_path = os.path.join(rundir, f"shard{shard}.err")
     hash_path = os.path.join(rundir, f"shard{shard}.hashes")
     jpath = os.path.join(rundir, f"shard{shard}.journal")
-    base = [PROBE, pid, "--seed", str(seed), "--tier", tier, "--shard", f"{shard}/{nshards}"]
+    base = [binary or PROBE, pid, "--seed", str(seed), "--tier", tier, "--shard", f"{shard}/{nshards}"]
     for k, v in extra_opts.items():
         base += [f"--{k}", str(v)]
     t0 = time.time()
